@@ -97,6 +97,12 @@ static void scen_run(void)
                 unsigned vw_mid[2] = { 0, 0 }, vr_mid[2] = { 0, 0 }, b_vw[2], b_vr[2];
                 unsigned char b_hl_cmd[NH], b_hl_kind[NH];
                 ASSUME(S.in[L1 - 1] == '\n');
+#ifdef PIN_TABLE
+                /* quick-tier variant: the table is pinned (+A plain, +B owns the uint8, +C implicit-write with a write handler);
+                 * symbolic: the argument bytes, the second line's command, the handler codes, the variable value */
+                ASSUME(S.fl[0] == 0 && S.fl[1] == 0 && S.fl[2] == F_IMPLICIT && S.hm[0] == 15 && S.hm[1] == 15 && S.hm[2] == H_WRITE);
+                ASSUME(S.gd[0] == 0 && S.gd[1] == 0 && S.vacc[0] == 0 && S.vacc[1] == 0 && S.vcb[0] == 0 && S.vcb[1] == 0);
+#endif
                 world_build();
                 rb = CAT_STATUS_BUSY;
                 for (k2 = 0; k2 < N; k2++) {
@@ -214,6 +220,10 @@ static void scen_sample(void)
         left = rnd(R + 1); while (left--) S.sr[rnd(N)] = 1;
         left = rnd(R + 1); while (left--) S.sw[rnd(N)] = 1;
         S.v2[0] = (unsigned char)rnd(256); S.v2[1] = (unsigned char)rnd(256);
+#ifdef PIN_TABLE
+        S.fl[0] = S.fl[1] = 0; S.fl[2] = F_IMPLICIT; S.hm[0] = S.hm[1] = 15; S.hm[2] = H_WRITE;
+        S.gd[0] = S.gd[1] = 0; S.vacc[0] = S.vacc[1] = 0; S.vcb[0] = S.vcb[1] = 0;
+#endif
         if (MODE == 2 && rnd(2)) S.vacc[rnd(2)] = 2;
 }
 #endif
